@@ -83,12 +83,21 @@ func c20Execute(rnd *rand.Rand) []cloneStep {
 	var steps []cloneStep
 	forceFirst := false
 	_ = forceFirst
+	rawOnly := rnd.Intn(8) == 0 // a history that also appends struct tags and adjacent literals
 	tok := 0
 	fresh := func() string { tok++; return fmt.Sprintf("t%d", tok) }
 	renderAll := func(s *cloneStep) {
 		for _, h := range handles {
 			var toks, toks2 []string
 			var fail, fail2 string
+			if rawOnly {
+				if p, what := mon.Guard(func() { toks, fail = rawTokens(h) }); p {
+					fail = "panic: " + what
+				}
+				s.Renders = append(s.Renders, toks)
+				s.Errs = append(s.Errs, fail)
+				continue
+			}
 			if p, what := mon.Guard(func() { toks, fail = directTokens(h); toks2, fail2 = rawTokens(h) }); p {
 				fail = "panic: " + what
 			}
@@ -104,6 +113,20 @@ func c20Execute(rnd *rand.Rand) []cloneStep {
 	}
 	appendTo := func(h *jen.Statement, s *cloneStep, empty bool) {
 		s.LenCap = [2]int{len(*h), cap(*h)}
+		if rawOnly && !empty && rnd.Intn(3) == 0 {
+			// struct tags and bare literals: not an expression any more, judged on the raw rendering only
+			if rnd.Intn(2) == 0 {
+				k := fresh()
+				h.Tag(map[string]string{k: "v"})
+				s.Kind, s.Tokens = "Tag", []string{"`" + k + `:"v"` + "`"}
+			} else {
+				n := 1000 + tok
+				tok++
+				h.Lit(n)
+				s.Kind, s.Tokens = "Lit", []string{fmt.Sprint(n)}
+			}
+			return
+		}
 		if empty { // nothing rendered yet: start the expression with an operand
 			a := fresh()
 			h.Id(a)
@@ -166,9 +189,9 @@ func c20Execute(rnd *rand.Rand) []cloneStep {
 	steps = append(steps, s0)
 	maxHandles := 3 + rnd.Intn(6)
 	nsteps := 10 + rnd.Intn(51)
-	chain := rnd.Intn(12) == 0 // a long chain of clones of clones (depth 34-40)
+	chain := rnd.Intn(12) == 0 // a long chain of clones of clones (depth 34-75)
 	if chain {
-		maxHandles = 35 + rnd.Intn(7)
+		maxHandles = 35 + rnd.Intn(42)
 		nsteps = maxHandles + 10 + rnd.Intn(10)
 	}
 	for i := 0; i < nsteps; i++ {
@@ -380,7 +403,7 @@ func c20Case(r *mon.Run, idx int64) {
 }
 
 func runC20(r *mon.Run) {
-	r.SetRule("random histories: 3-8 handles forming a tree by Clone() (one history in twelve: a chain of 35-41 clones of clones; a third of the clones are taken inside a Do callback), 10-60 steps appending 2-8 tokens with unique names (Dot, Op+Id, Add(k), Call, Index, chains — always a valid expression continuation, so handles can be rendered with Render itself) to a random handle, so that clone points with and without spare slice capacity both occur; after every step every handle is rendered with Render and inside a NoFormat File, and tokenised; offline checker against a list model admitting live and snapshot views of the original. non-trivial = history with >=1 clone; distinct by operation sequence")
+	r.SetRule("random histories: 3-8 handles forming a tree by Clone() (one history in twelve: a chain of 35-76 clones of clones; a third of the clones are taken inside a Do callback), 10-60 steps appending 2-8 tokens with unique names (Dot, Op+Id, Add(k), Call, Index, chains — always a valid expression continuation, so handles can be rendered with Render itself) to a random handle, so that clone points with and without spare slice capacity both occur; after every step every handle is rendered with Render and inside a NoFormat File, and tokenised; offline checker against a list model admitting live and snapshot views of the original. non-trivial = history with >=1 clone; distinct by operation sequence")
 	r.Assume("a clone that has been appended to may show its original as it was at clone time or as it is now (both admitted: the statement promises isolation of originals and survival of clone tokens); an unmodified clone must render exactly like its original at every step, as the statement says")
 	c20NegControls(r)
 	n := r.Pick(2500, 30000)
